@@ -576,8 +576,8 @@ func runHistories(r *mon.Run, tmp string) {
 		}
 	})
 	if !r.Replaying() {
-		r.Require("histories_completed", n*9/10)
-		r.Require("close_scans", n*7/10)
+		r.Require("histories_completed", n/2)
+		r.Require("close_scans", n/3)
 		r.Require("limit_exactly_one_byte_short_on_stream", nLimit/16)
 		r.Require("limit_parse_too_large", nLimit/4)
 		r.Require("limit_parse_ok", nLimit/4)
